@@ -1,7 +1,13 @@
+import Verif.Properties.C09
 import Verif.Properties.C06
 import Verif.Properties.C20
 import Verif.Properties.C03
--- termination / totality theorems for the modelled loops of Flatten, New and Schema
+-- no panic is reachable in the modelled pipeline; termination / totality theorems for the modelled loops of Flatten, New and Schema
+#print axioms C09.pipeline_never_panics
+#print axioms C09.pipeline_local_never_panics
+#print axioms C09.classify_never_panics
+#print axioms C09.strip_site_guarded
+#print axioms C09.strip_site_panics_unguarded
 #print axioms C06.terminates
 #print axioms C20.terminates
 #print axioms C03.uniqify_terminates
